@@ -22,7 +22,10 @@ Definition label_at (s : series) (p : Z) : Z :=
   t0 s + (if p <? 0 then zlen (ys s) + p else p).
 
 Lemma bridge_fit_cutoff s : label_at s gen_fit_cutoff_pos = last_time s.
-Proof. unfold label_at, gen_fit_cutoff_pos, last_time. cbn [Z.opp Z.ltb Z.compare]. lia. Qed.
+Proof.
+  unfold label_at, gen_fit_cutoff_pos, last_time.
+  match goal with |- context [if ?c then _ else _] => destruct c eqn:? end; lia.
+Qed.
 
 Lemma bridge_fit_rejects_empty : gen_fit_allow_empty = false /\ gen_update_allow_empty = true.
 Proof. split; reflexivity. Qed.
@@ -32,18 +35,25 @@ Definition gen_fit_state (s : series) : state :=
 Lemma bridge_fit_state s : gen_fit_state s = fit_state s.
 Proof. unfold gen_fit_state, fit_state. rewrite bridge_fit_cutoff. reflexivity. Qed.
 
-(* _update_y_X on a batch whose first time point is `fst b` *)
+(* _update_y_X on a batch whose first time point is `fst b`: what the regenerated body does to a
+   batch of that length (gen_update_effect: Some p = merge and set the cutoff to position p) *)
 Definition gen_update_state (st : state) (b : Z * list oq) : state :=
-  if gen_update_guard (zlen (snd b))
-  then {| obs := {| t0 := t0 (obs st); ys := ys (obs st) ++ snd b |};
-          cutoff := label_at {| t0 := fst b; ys := snd b |} gen_update_cutoff_pos |}
-  else st.
+  match gen_update_effect (zlen (snd b)) with
+  | Some p => {| obs := {| t0 := t0 (obs st); ys := ys (obs st) ++ snd b |};
+                 cutoff := label_at {| t0 := fst b; ys := snd b |} p |}
+  | None => st
+  end.
+Ltac split_bools :=
+  repeat match goal with
+         | |- context [if ?c then _ else _] =>
+             match type of c with bool => destruct c eqn:?; cbv beta iota zeta end
+         end.
 Lemma bridge_update_state st b : gen_update_state st b = update_state st b.
 Proof.
-  unfold gen_update_state, update_state, gen_update_guard, label_at, gen_update_cutoff_pos.
-  destruct b as [tb l]. cbn [fst snd t0 ys]. destruct l as [|x l]; [reflexivity|].
-  pose proof (zlen_nonneg l) as Hl. rewrite zlen_cons in *.
-  destruct (1 + zlen l >? 0) eqn:E; [|lia]. cbn [Z.opp Z.ltb Z.compare]. f_equal. lia.
+  unfold gen_update_state, update_state, gen_update_effect, label_at.
+  destruct b as [tb l]. cbn [fst snd t0 ys]. destruct l as [|x l].
+  - change (zlen (@nil oq)) with 0. split_bools; first [reflexivity | exfalso; lia].
+  - pose proof (zlen_nonneg l) as Hl. rewrite !zlen_cons. split_bools; try (exfalso; lia); f_equal; lia.
 Qed.
 
 Definition gen_run_state (s : series) (ups : list (Z * list oq)) : state :=
